@@ -1165,6 +1165,8 @@ def check_C13(ctx):
         rep.ob("C13.and_bits", "AND of five slots", all(bvv[i] == b_and([("b", s_, i) for s_ in slots]) for i in range(32)), "and_bits is not the bitwise AND of all five slots", pdb.where(key))
         arr = agg(("array",), slot_atoms(5))
         for fname, pat in (("evaluate::is_flush", "F"), ("evaluate::or_rank_bits", "M")):
+            pt = pdb.tys(pdb.fn(fname)["mir"]["locals"][1]).replace(" ", "")
+            rep.ob("C13.deprecated-twin", fname + " signature", pt == "[u32;5]", "%s takes %s, not five card words" % (fname, pt), pdb.where(fname), nontrivial=False)
             sm = ctx.summ(fname, [("v", arr)])
             fz = Factoriser(ctx, slots, kz)
             r = fz.rewrite(sm.ret)
